@@ -17,6 +17,29 @@ PID = 'C14'
 GUARDED = ('vec', 'deque', 'list', 'btreeset', 'hashset', 'indexset', 'btreemap', 'hashmap', 'indexmap')
 
 
+def _wire_empty(t):
+    k = t[0]
+    if k == 'unit':
+        return True
+    if k == 'array':
+        return t[1] == 0 or _wire_empty(t[2])
+    if k == 'prod':
+        kind = t[1]
+        skips = ()
+        if isinstance(kind, tuple) and kind[0] == 'struct':
+            skips = kind[3]
+        elif isinstance(kind, tuple) and kind[0] == 'variant':
+            skips = kind[2]
+        return all(_wire_empty(x) for i, x in enumerate(t[2]) if not (i < len(skips) and skips[i]))
+    if k == 'wrap':
+        return _wire_empty(t[2])
+    return False
+
+
+def _has_empty_collection(t):
+    return any(s[0] == 'seq' and _wire_empty(s[2]) for s in subterms(t))
+
+
 def zst_collections(tmap):
     out = []
     for tid, t in tmap.items():
@@ -110,8 +133,36 @@ def run(tier, seed, t0):
             if r is None or not (r.startswith('ok same') or r.startswith('skip')):
                 failures.append({'class': 'zst-unusable', 'key': sexp(t),
                                  'what': 'an array/tuple/option of zero-sized types does not round-trip: %s %s -> %s [%s]' % (sexp(t), v, r, cfg)})
+        # (4) agreement with schema validation: for every sequence/set type (with a schema) whose
+        # element is empty in memory AND on the wire the run-time refusal (checked above) and
+        # validate()'s zero-sized-sequence verdict must agree; for elements that occupy the wire
+        # validation must not give that verdict.  (Theorems C14_agree / C14_agree_converse.)
+        agree_lines, agree_meta = [], {}
+        for tid, t in tmap.items():
+            if not flt(t) or t[0] != 'seq' or t[1] in MAP_KINDS or t[1] not in GUARDED or not has_schema(t) or not can_de(t):
+                continue
+            cid = 'a%d' % tid
+            agree_lines.append(case_line(cid, 'schema', tid, sexp(t)))
+            agree_meta[cid] = t
+        ares = run_cases(exe, agree_lines)
+        stats['evaluations'] += len(agree_lines)
+        for cid, t in agree_meta.items():
+            r = ares.get(cid) or 'missing'
+            verdict = r.split('\t')[1] if r.count('\t') >= 2 else r
+            e = t[2]
+            classes['agree:' + ' '.join(verdict.split(' ')[:2])] += 1
+            if mem_zst(e) and wire_min(e) == 0 and _wire_empty(e):
+                if not verdict.startswith('err ZSTSequence'):
+                    failures.append({'class': 'zst-schema-disagree', 'key': sexp(t),
+                                     'what': 'run-time refuses %s (zero-sized, wire-empty elements) but schema validation says: %s [%s]' % (sexp(t), verdict, cfg),
+                                     'type': sexp(t), 'rust': rust(t), 'validate': verdict, 'cfg': cfg})
+            elif not _has_empty_collection(t):
+                if verdict.startswith('err ZSTSequence'):
+                    failures.append({'class': 'zst-schema-disagree', 'key': sexp(t),
+                                     'what': 'schema validation reports a zero-sized sequence for %s whose elements occupy the wire: %s [%s]' % (sexp(t), verdict, cfg)})
         if not stats['samples']:
             stats['samples'] = [{'type': r['type'], 'mode': r['mode'], 'input': r['input'], 'result': r['impl']} for r in drecs[0:600:67]]
+            stats['agreement_types'] = len(agree_meta)
             stats['zst_collection_types'] = [sexp(t) for _, t in zc]
             stats['usable_types'] = len(usable)
     stats['result_classes'] = dict(classes)
